@@ -6,6 +6,7 @@
    process for deep nesting). *)
 From Coq Require Import List NArith Arith.
 From SonicV Require Import Model.Err Model.NodeBudget Model.Inplace Model.Meta Model.Arc Model.Cas Model.Latch.
+From SonicV Require Spec.Ref Model.Utf8.
 From Coq Require Import ZArith.
 From SonicV Require Import Gen.Guards Gen.Tables Model.GuardsOk.
 Import ListNotations.
@@ -55,3 +56,9 @@ Theorem float_table_indices_in_bounds :
    G_CL_HI - G_CL_SPLIT_SUB < POW10_FLOAT_LEN /\ 0 < G_CL_SPLIT + 1 - G_CL_SPLIT_SUB /\
    0 <= (G_NF_LO + 1) + G_NF_IDX /\ (G_NF_HI - 1) + G_NF_IDX < POW5_LEN)%Z.
 Proof. pose proof clinger_guard as C. pose proof normal_fast_guard as N. intuition. Qed.
+
+(* memory safety of the string results: the decoders hand out &str built without re-validation; the
+   decoded bytes of a literal taken from valid UTF-8 input are valid UTF-8 *)
+Theorem unchecked_str_construction_is_sound : forall fuel l d h rest,
+  Ref.utf8_valid l = true -> Ref.str_body true fuel l = Some (d, h, rest) -> Ref.utf8_valid d = true /\ Ref.utf8_valid rest = true.
+Proof. exact Utf8.decoded_string_is_valid_utf8. Qed.
